@@ -1,0 +1,6 @@
+//go:build !verif
+
+package state
+
+// TokenTransferBatchSize is the maximum number of entries for TokenTransferLog.
+const TokenTransferBatchSize = 128
